@@ -29,7 +29,8 @@ from pymbolic.mapper import IdentityMapper
 from pytools import UniqueNameGenerator
 
 from dagrt.codegen.dag_ast import (
-    ASTIdentityMapper, Block, StatementWrapper, get_statements_in_ast)
+    ASTIdentityMapper, Block, LoopVariableFinder, StatementWrapper,
+    get_statements_in_ast)
 
 
 __doc__ = """
@@ -75,9 +76,13 @@ class ASTStatementRewriter(ASTIdentityMapper):
 
 def apply_statement_rewriter(rewriter_cls, phase_ast):
     statements = list(get_statements_in_ast(phase_ast))
+    var_name_gen = get_var_name_generator(statements)
+    # Loop variables are part of the AST, not of the statements in it.
+    var_name_gen.add_names(
+            LoopVariableFinder()(phase_ast), conflicting_ok=True)
     rewriter = rewriter_cls(
             stmt_id_gen=get_stmt_id_generator(statements),
-            var_name_gen=get_var_name_generator(statements))
+            var_name_gen=var_name_gen)
 
     return rewriter(phase_ast)
 
